@@ -19,6 +19,9 @@ R02c macro invocations are bracketed: in visit_CallMacroNode the body reset (`<m
      on the macro node) to the end of the generator increments the finished counter: otherwise the next call of the same
      macro takes the "complete a started call" branch and continues in the middle of the stale body - lines not started
      from the first, and without the Call macro having started. The reset must be recursive (all lines start again).
+R02d every interpreter command completes: in visit_InterpreterCommandNode every normal path to the end of the generator passes
+     tracking.mark_completed(node) (an early `return`, e.g. for a Wait shorter than a tick, leaves the line Started for ever
+     although the next line starts).
 Decides these shapes; exactly-once and ordering over all nestings and timings are runtime matters.
 """
 from __future__ import annotations
@@ -243,3 +246,23 @@ def run(ctx) -> None:
     else:
         ctx.fail("R02c", f, body[0].ast, inst, "an invocation can end without being counted as finished: the next call of this macro skips the "
                  "reset and continues in the middle of the stale body (lines not started from the first, Call macro not started)", p)
+
+    # ---- R02d
+    ctx.rule("R02d", "every interpreter command line is completed on every normal path")
+    vicf = pi.methods.get("visit_InterpreterCommandNode")
+    if vicf is None:
+        raise AnchorError("PInterpreter.visit_InterpreterCommandNode missing")
+    ctx.analysed(vicf)
+    gv_ = cfg_of(vicf)
+    vpar_ = vicf.node.args.args[1].arg
+    done = lambda n: n.ast is not None and any(call_attr(c) == "mark_completed" and c.args and norm(c.args[0]) == vpar_ for c in n.calls())
+    if not any(done(n) for n in gv_.nodes):
+        raise AnchorError("visit_InterpreterCommandNode: tracking.mark_completed(node) not found")
+    p_ = gv_.path_to_exit_avoiding(None, done, follow_exc=False)
+    inst = "visit_InterpreterCommandNode: every normal exit passes tracking.mark_completed(node)"
+    if p_ is None:
+        ctx.ok("R02d", inst)
+    else:
+        ctx.fail("R02d", vicf, [n for n in p_ if n.kind == "stmt"][-1].ast if any(n.kind == "stmt" for n in p_) else vicf.node, inst,
+                 "a path leaves the visitor without completing the instruction: the line stays Started in the run log and in the "
+                 "method state for the rest of the run while the next line starts", p_)
